@@ -377,6 +377,11 @@ func runC19(p *Program, r *Report) {
 						for _, in := range b.Instrs {
 							if c, ok := in.(*ssa.Call); ok {
 								if g := staticCallee(c.Common()); g != nil && g.Pkg != nil && g.Pkg.Pkg.Path() == imp {
+									if helperOnlyOf(p, f, isToHTMLWrapper, 0) {
+										// a helper that only the two wrappers use (decided with them by C05.R4)
+										users = append(users, "ExecuteTemplateToHTML", "ExecuteToHTML")
+										continue
+									}
 									users = append(users, f.Name())
 								}
 							}
@@ -384,6 +389,13 @@ func runC19(p *Program, r *Report) {
 					}
 				}
 				sort.Strings(users)
+				var uniq []string
+				for i, u := range users {
+					if i == 0 || users[i-1] != u {
+						uniq = append(uniq, u)
+					}
+				}
+				users = uniq
 				ok := path == pkgTemplate && strings.Join(users, ",") == "ExecuteTemplateToHTML,ExecuteToHTML"
 				r.Check(ok, "C19.R6", strings.TrimPrefix(path, modulePath)+"#uses:"+strings.TrimPrefix(imp, modulePath+"/"), "", "unchecked conversion used only by ExecuteToHTML / ExecuteTemplateToHTML (on their own buffered output)", fmt.Sprintf("an unchecked conversion is called from %v", users))
 			}
